@@ -3547,7 +3547,23 @@ impl GlobalInferenceCtx<'_> {
                                         });
                                     }
 
-                                    let max_ty = output_ty.max_ty.into();
+                                    let max_ty: Intern<Ty> = output_ty.max_ty.into();
+
+                                    // `x op= y` stores `x op y` back into `x`, so just as for
+                                    // `x = x op y` the result has to fit the destination
+                                    // (`a_u8 += a_u32` would otherwise store four bytes through `a_u8`)
+                                    if *dest_ty != Ty::Unknown
+                                        && *value_ty != Ty::Unknown
+                                        && op.can_perform(&max_ty)
+                                        && !max_ty.can_fit_into(&dest_ty)
+                                        && !dest_ty.is_weak_replaceable_by(&max_ty)
+                                    {
+                                        self.expect_match(
+                                            max_ty,
+                                            ExpectedTy::Concrete(dest_ty),
+                                            assign_body.value,
+                                        );
+                                    }
 
                                     self.replace_weak_tys(assign_body.dest, max_ty);
                                     self.replace_weak_tys(assign_body.value, max_ty);
